@@ -1,30 +1,58 @@
 """Sheet-reader constants (converters.py): which reader class serves which `--format`.
-Literals only, read with `ast`.  (Keyword arguments such as `ensure_ascii` / `indent` are NOT
-tied: changing them is behaviour-preserving, and a harmless edit must not break the build.)"""
-import ast
 
-from ..extract_tables import _find_func, _parse, lean_str
+HOW IT READS (DESIGN §2.5a): BEHAVIOUR.  `converters.create_sheet_reader(fmt, path)` is called for
+every candidate format word (string constants of converters.py / cli.py and strings held by
+module-level values) with the constructors of all reader classes (live subclasses of
+`AbstractSheetReader`) switched off, and the class of the object it returns is recorded; a word it
+refuses is not a format.  An if/elif chain, a dispatch dict or a `match` give the same table.
+ORDER: the table is a lookup on distinct format words — emitted SORTED by format, compared up to
+order.  (Keyword arguments such as `ensure_ascii` / `indent` are NOT tied: changing them is
+behaviour-preserving, and a harmless edit must not break the build.)"""
+from unittest import mock
+
+from .. import t1lib
+from ..extract_tables import _parse, lean_str
 
 
-def _format_readers():
-    """[(format, reader class)] in the order of the if/elif chain of create_sheet_reader"""
-    f = _find_func(_parse("converters.py"), "create_sheet_reader")
+def _subclasses(cls):
     out = []
-    for n in ast.walk(f):
-        if isinstance(n, ast.If) and isinstance(n.test, ast.Compare) and isinstance(n.test.left, ast.Name) \
-                and n.test.left.id == "sheet_format" and isinstance(n.test.ops[0], ast.Eq):
-            fmt = n.test.comparators[0].value
-            call = n.body[0].value
-            assert isinstance(call, ast.Call) and isinstance(call.func, ast.Name), ast.dump(n.body[0])
-            out.append((fmt, call.func.id))
-    assert out, "create_sheet_reader: no format branches found"
+    for c in cls.__subclasses__():
+        out.append(c)
+        out += _subclasses(c)
     return out
 
 
+def format_readers():
+    """[(format, reader class name)] sorted by format"""
+    conv = t1lib.load("rpft.converters")
+    sheets = t1lib.load("rpft.parsers.sheets")
+    words = t1lib.str_constants(_parse("converters.py"), _parse("cli.py"))
+    words += [w for w in t1lib.runtime_strings(conv) if w not in words]
+    readers = _subclasses(sheets.AbstractSheetReader)
+    assert readers, "no reader classes"
+    out = {}
+    patches = [mock.patch.object(c, "__init__", lambda self, *a, **k: None) for c in readers if "__init__" in vars(c)]
+    for p in patches:
+        p.start()
+    try:
+        for w in words:
+            try:
+                r = conv.create_sheet_reader(w, "/nonexistent/t1-probe")
+            except (Exception, SystemExit):  # noqa: BLE001  (unsupported format)
+                continue
+            if isinstance(r, sheets.AbstractSheetReader):
+                out[w] = type(r).__name__
+    finally:
+        for p in patches:
+            p.stop()
+    assert out, "create_sheet_reader accepts no format word"
+    return sorted(out.items())
+
+
 def tables() -> str:
-    fr = _format_readers()
+    fr = format_readers()
     lines = [
-        "/-- `create_sheet_reader`: format name → reader class, in source order -/",
+        "/-- `create_sheet_reader`: format name → reader class (behaviour probe), sorted by format -/",
         "def sheetFormatReaders : List (List Char × List Char) := ["
         + ", ".join(f"({lean_str(a)}, {lean_str(b)})" for a, b in fr) + "]",
     ]
